@@ -451,16 +451,23 @@ static void mode_targets_rand(vf::Ctx& c)
 	Srv srv;
 	srv.files = true;
 	srv.setRoot(g_root.c_str());
-	static const char* sym[] = {".", "..", "/", "%2e", "%2E", "%2f", "%2F", "%25", "%252e", "%25252e", "a", "sub", "%00", "%c0%ae", "\\", "....//", "..;/", "?", "#", "%", "%2", "+", "secret.txt", "../secret.txt"};
+	static const char* sym[] = {".", "..", "/", "%2e", "%2E", "%2f", "%2F", "%25", "%252e", "%25252e", "a", "sub", "%00", "%c0%ae", "\\", "....//", "..;/", "?", "#", "%", "%2", "+", "secret.txt", "../secret.txt", "-private/", "-private/secret.txt", "./"};
+	// a third of the connections talk to a server whose root was given with a trailing "/." (the same directory)
+	bool dotRoot = c.idx % 3 == 1;
+	if (dotRoot) srv.setRoot((g_root + "/.").c_str());
 	std::string stream;
 	std::vector<std::string> tg;
 	int n = c.rng.range(1, 30);
 	for (int i = 0; i < n; i++) {
 		std::string t;
 		int k = c.rng.range(1, 25);
+		if (c.rng.chance(0.15)) k = c.rng.range(1, 3);
 		for (int j = 0; j < k; j++) t += sym[c.rng.below(sizeof(sym) / sizeof(sym[0]))];
 		tg.push_back(t);
-		stream += "GET /" + t + " HTTP/1.1\r\nHost: h\r\n\r\n";
+		// one target in five is not in origin form (no leading '/'): whatever the server makes of it, it stays inside the root
+		bool noslash = c.rng.chance(0.2);
+		if (noslash) c.count("targets_without_leading_slash");
+		stream += std::string("GET ") + (noslash ? "" : "/") + t + " HTTP/1.1\r\nHost: h\r\n\r\n";
 	}
 	{ std::lock_guard<std::mutex> l(g_mu); g_seen.clear(); g_lookups.clear(); }
 	g_dotdot = 0;
@@ -557,6 +564,10 @@ int main(int argc, char** argv)
 		f = fopen((g_root + "/sub/index.html").c_str(), "w"); if (f) { fputs("<p>index</p>", f); fclose(f); }
 		f = fopen((base + "/secret.txt").c_str(), "w"); if (f) { fputs("SECRET-SENTINEL", f); fclose(f); }
 		f = fopen((base + "/a").c_str(), "w"); if (f) { fputs("SECRET-SENTINEL", f); fclose(f); }
+		// a sibling directory whose name starts with the root's name
+		mkdir((g_root + "-private").c_str(), 0777);
+		f = fopen((g_root + "-private/secret.txt").c_str(), "w"); if (f) { fputs("SECRET-SENTINEL", f); fclose(f); }
+		f = fopen((g_root + "-private/index.html").c_str(), "w"); if (f) { fputs("SECRET-SENTINEL", f); fclose(f); }
 		if (o.mode == "targets") { std::string cur; enumTargets((int)o.param("maxchars", 8), g_targets, cur, 0); }
 	};
 	return R.main(argc, argv);
